@@ -14,8 +14,7 @@ from ..loader import AnalysisError, unparse, call_name
 from ..dataflow import linform, lin_eq, lin_str, single_assign_subst, target_names
 from ..solver_model import Sweep, iter_partition, eval_calls, series_mutation
 
-TECHNIQUE = ('static analysis: three-valued (IEEE unordered) branch feasibility walk over a hand-built CFG, dominance / '
-             'must-pass-through queries, linear-form normalisation of index expressions')
+TECHNIQUE = ('static analysis: three-valued (IEEE unordered) branch feasibility walk over a hand-built CFG of the sweep (private helpers inlined at the syntax level); feasible-path search with truthiness constants from every evaluation-error handler to the commit; value flow of the evaluation result through tuples; linear-form normalisation of index expressions')
 EXPLANATION = (
     'Decides, on every path of the sweep function, that a NaN convergence measure cannot reach the commit of a period, '
     'that the error measure ranges over exactly the evaluated block with an abs(new-old) term on every path, that lagged '
